@@ -22,7 +22,7 @@ KEYS = ["a", "b", "_p", "_", "keys", "items", "__x", 1]
 BOUNDS = {"quick": dict(keys=KEYS, entries="<= 3 per level (all 3-subsets of the key alphabet), depth <= 2, nested lists", operations="all sequences of length <= 2 over 6 operations, seeded 150 of length 3",
                         hex="data length 0..3 symbolic bytes x line sizes 1, 2, 3, 16"),
           "thorough": dict(keys=KEYS, entries="<= 4 per level", operations="all sequences of length <= 3", hex="data length 0..5 x line sizes 1, 2, 3, 8, 16")}
-OUTSIDE = ["numpy values (module absent)", "hex dumps of >= 64 KiB (second offset format)", "__str__ pretty printing"]
+OUTSIDE = ["numpy values (module absent)", "hex dumps of >= 64 KiB with more than a 3-byte symbolic window", "__str__ pretty printing"]
 ASSUMPTIONS = ["pickle round-trips run for real on containers with concrete leaves (symbolic leaves are not picklable)"]
 
 
@@ -50,6 +50,8 @@ def instances(tier, seed):
     for n in ((0, 1, 2, 3) if tier == "quick" else (0, 1, 2, 3, 4, 5)):
         for ls in ((1, 2, 3, 16) if tier == "quick" else (1, 2, 3, 8, 16)):
             out.append(dict(name="hex n=%d linesize=%d" % (n, ls), params=dict(kind="hex", n=n, ls=ls)))
+    for big, ls in ((0x10000 + 6, 16), (0x10000 + 70, 64)) + (((0x10000 + 4, 1),) if tier != "quick" else ()):
+        out.append(dict(name="hex n=%d (64 KiB boundary crossed) linesize=%d, 3-byte symbolic window beyond 0x10000" % (big, ls), params=dict(kind="hex", big=big, ls=ls, n=0)))
     return out
 
 
@@ -148,7 +150,7 @@ def _views(ctx, C, c, model, what):
 def _ops(ctx, C, p):
     c = C.Container()
     model = []
-    names = ["a", "_p", "keys", "b"]
+    names = ["a", "_p", "keys", "b", "items"]
     for i, k in enumerate(names[:2]):
         v = ctx.int("init.%s" % k, 0, 9)
         c[k] = v
@@ -156,12 +158,12 @@ def _ops(ctx, C, p):
     for step, op in enumerate(p["ops"]):
         tag = "step %d %s" % (step, op)
         if op == "set":
-            k = names[(step + 2) % 4]
+            k = names[(step * 2 + 2) % 5]
             v = ctx.int("v%d" % step, 0, 9)
             c[k] = v
             model = [(kk, (v if kk == k else vv)) for kk, vv in model] if k in [m[0] for m in model] else model + [(k, v)]
         elif op == "setattr":
-            k = names[(step + 3) % 4]
+            k = names[(step * 2 + 3) % 5]
             v = ctx.int("v%d" % step, 0, 9)
             setattr(c, k, v)
             model = [(kk, (v if kk == k else vv)) for kk, vv in model] if k in [m[0] for m in model] else model + [(k, v)]
@@ -197,7 +199,9 @@ def _ops(ctx, C, p):
                     conc[k] = ctx.concretize(v) if isinstance(v, (SymInt, SymBool)) else v
                 c = conc
                 model = [(k, c[k]) for k, v in model]
-            c2 = pickle.loads(pickle.dumps(c))
+            rp = api.outcome(lambda: pickle.loads(pickle.dumps(c)))
+            ctx.check("%s: the container pickles and unpickles (got %s)" % (tag, "ok" if rp.ok else type(rp.exc).__name__ + ": " + str(rp.exc)[:50]), rp.ok)
+            c2 = rp.value
             ctx.check("%s: the unpickled object is a Container equal to the original" % tag, type(c2).__name__ == "Container" and c2 == c and c2 is not c)
             c = c2
         _views(ctx, C, c, model, tag)
@@ -207,13 +211,16 @@ def _ops(ctx, C, p):
 def _indep(ctx, C, p):
     how = p["how"]
     x, y, z = (ctx.int("x", 0, 9), ctx.int("y", 0, 9), ctx.int("z", 0, 9)) if how != "pickle" else (1, 2, 3)
-    orig = C.Container(a=x, n=C.Container(b=y, l=C.ListContainer([z, C.Container(q=1)])), _p=7)
+    orig = C.Container(a=x, n=C.Container(b=y, l=C.ListContainer([z, C.Container(q=1, values=2)]), items=3, raw=[z, [1]], _d={"k": [y]}), _p=7, items=5, keys=6,
+                       plain=[x, 2], _buf=bytearray(b"ab"), tup=(1, [2]))
     if how == "copy":
         c2 = copy.copy(orig)
     elif how == "deepcopy":
         c2 = copy.deepcopy(orig)
     else:
-        c2 = pickle.loads(pickle.dumps(orig))
+        rp = api.outcome(lambda: pickle.loads(pickle.dumps(orig)))
+        ctx.check("a container whose keys shadow method names pickles and unpickles (got %s)" % ("ok" if rp.ok else type(rp.exc).__name__ + ": " + str(rp.exc)[:50]), rp.ok)
+        c2 = rp.value
     ctx.check("the copy equals the original", c2 == orig)
     ctx.check("private entries survive the copy", "_p" in c2 and c2["_p"] == 7)
     c2["a"] = 100
@@ -227,6 +234,17 @@ def _indep(ctx, C, p):
         ctx.check("changes at any depth of the copy do not reach the original",
                   ctx.fork(ctx.eq(orig["n"]["b"], y)) and len(orig["n"]["l"]) == 2 and orig["n"]["l"][1]["q"] == 1)
         ctx.check("nested values are of the container types", type(c2["n"]).__name__ == "Container" and type(c2["n"]["l"]).__name__ == "ListContainer")
+        # plain mutable values (list, dict, bytearray) held by a container, under public and private keys, at any depth
+        ctx.check("plain lists, dicts and bytearrays are copied too",
+                  c2["plain"] is not orig["plain"] and c2["_buf"] is not orig["_buf"] and c2["n"]["raw"] is not orig["n"]["raw"] and c2["n"]["raw"][1] is not orig["n"]["raw"][1]
+                  and c2["n"]["_d"] is not orig["n"]["_d"] and c2["n"]["_d"]["k"] is not orig["n"]["_d"]["k"] and c2["tup"][1] is not orig["tup"][1])
+        c2["plain"].append(9)
+        c2["_buf"][0] = 0
+        c2["n"]["raw"][1].append(9)
+        c2["n"]["_d"]["k"].append(9)
+        c2["n"]["_d"]["new"] = 1
+        ctx.check("changes inside plain values of the copy do not reach the original",
+                  len(orig["plain"]) == 2 and bytes(orig["_buf"]) == b"ab" and orig["n"]["raw"][1] == [1] and len(orig["n"]["_d"]["k"]) == 1 and "new" not in orig["n"]["_d"])
         got = api.outcome(lambda: c2.n.l[1].q)
         ctx.check("attribute access works at every depth of the copy", got.ok and got.value == 9)
     return "ok"
@@ -263,7 +281,14 @@ def _search(ctx, C, p):
 
 
 def _hex(ctx, C, p):
-    data = ctx.bytes("data", p["n"])
+    if p.get("big"):
+        # >= 64 KiB: the second offset format.  All but a 3-byte window are fixed bytes; the window lies beyond offset 0x10000
+        n = p["big"]
+        pre = bytes((i * 7 + 3) & 0xFF for i in range(0x10000 + 1))
+        post = bytes((i * 5 + 1) & 0xFF for i in range(n - len(pre) - 3))
+        data = pre + ctx.bytes("window", 3) + post
+    else:
+        data = ctx.bytes("data", p["n"])
     text = C.hexdump(data, p["ls"])
     back = api.outcome(C.hexundump, text, p["ls"])
     ctx.check("hexundump accepts what hexdump produced (got %s)" % ("ok" if back.ok else type(back.exc).__name__), back.ok)
